@@ -47,7 +47,7 @@ def run(ctx):
     for w in ((2,) if ctx.quick else (2, 4)):
         jobs += [('%s_%s_w%d' % (tag, a[0], w), src, a, w, 200, False, 300000) for tag, src, a in sp]
     ctx.stats['speculation_programs'] = len(sp)
-    tally, bad, res = suites.differential(ctx, jobs, None, label='time-travel')
+    tally, bad, res = suites.differential(ctx, jobs, None, label='time-travel', must_compile_prefixes=('shd_', 'tex_', 'pre_', 'spec'))
     # the typechecker folds `??` (and constants generally): the reference above runs on the real front end's typed tree, so the
     # special families are also judged against the typed tree of the verified front-end model
     fam = {}
